@@ -71,7 +71,8 @@ def all_ops(k, rich=True):
 
 def uses_non_node(op):
     if op[0] == "set_parent":
-        return op[2] in ("other", "other0")
+        return False      # a non-node parent: TreeError (NodeMixin) / AttributeError (LightNodeMixin), nothing changed
+
     if op[0] == "set_children":
         return op[2] != "notiterable" and any(v is None or v in ("other", "otherp") for v in op[2])
     if op[0] == "construct":
@@ -82,6 +83,19 @@ def uses_non_node(op):
 
 def mk(cls, heap, op, faults=None, asrt=False, log=False):
     return {"cls": cls, "heap": heap, "op": op, "faults": faults or [[], []], "asrt": asrt, "log": log}
+
+
+def fresh_cases(classes):
+    """calls on nodes that were never inspected before (no attribute read, no children list created yet)"""
+    out = []
+    for k in (1, 2):
+        heap = [[None, []] for _ in range(k)]
+        for op in all_ops(k, rich=False):
+            for cls in classes:
+                if not TYPED[cls] and uses_non_node(op):
+                    continue
+                out.append(dict(mk(cls, heap, op, log=True), fresh=True))
+    return out
 
 
 def run_impl(cases, prop):
